@@ -45,6 +45,10 @@ const (
 	modeB = 0o755
 )
 
+// call orders on one write descriptor (w Write, t Truncate, f Flush; Close at the end)
+var fdScripts = []string{"wft", "ft", "tfw"}
+var fdScriptsThorough = []string{"fw", "wfw", "tft", "fft", "ftw", "fwt", "wtf"}
+
 var theRun *eng.Run
 var thorough bool
 
@@ -198,12 +202,14 @@ type sys struct {
 	lastFeat []string // features of the last op (for violations found by Check)
 	mvSrc    string   // source path of the last Mv
 	sawHAMT  bool
+	obsEach  bool
 }
 
 func newSys(cfg string) eng.Sys {
 	s := &sys{cfg: cfg, model: newDir()}
 	s.pub = strings.Contains(cfg, "pub=1")
 	s.hamt = strings.Contains(cfg, "hamt=1")
+	s.obsEach = strings.Contains(cfg, "obs=each")
 	s.ctx, s.cancel = context.WithCancel(context.Background())
 	db := dssync.MutexWrap(ds.NewMapDatastore())
 	bs := bstore.NewBlockstore(db)
@@ -284,7 +290,7 @@ func (s *sys) Ops() []string {
 	for _, p := range []string{"/a/x", "/b/x", "/f", "/a/f/x"} {
 		ops = append(ops, "MkdirP "+p)
 	}
-	ops = append(ops, "Mkdir /f", "CreateRaw /f", "CreateRaw /a/f", "CreatePB /f", "Create /a", "Create /a/x")
+	ops = append(ops, "MkdirPM /a/x", "MkdirPM /b/x", "MkdirM /a", "Mkdir /f", "CreateRaw /f", "CreateRaw /a/f", "CreatePB /f", "Create /a", "Create /a/x")
 	if thorough {
 		ops = append(ops, "CreateRaw /a/x/f", "CreateRaw /b/x/f", "MkdirF /a", "MkdirF /a/x", "MkdirPN /a/x", "MkdirPN /b/x", "CreatePB /a/f")
 	}
@@ -293,8 +299,14 @@ func (s *sys) Ops() []string {
 	for _, p := range pres {
 		if !s.model.get(p).dir {
 			ops = append(ops, "Write "+p, "Trunc "+p, "Append "+p)
+			for _, sc := range fdScripts {
+				ops = append(ops, "Fd "+p+" "+sc)
+			}
 			if thorough {
 				ops = append(ops, "WriteNS "+p)
+				for _, sc := range fdScriptsThorough {
+					ops = append(ops, "Fd "+p+" "+sc)
+				}
 			}
 		}
 	}
@@ -370,6 +382,16 @@ func (s *sys) Do(op string) (o string, v *eng.Violation) {
 		pv.Detail = op + ": " + pv.Detail
 		return "panic", pv
 	}
+	if v == nil && s.obsEach {
+		// "obs=each": the pure observers of the live view run after every
+		// operation on the same root (reads interleaved with mutations)
+		if v = s.liveCheck(); v != nil {
+			if v.Features == nil {
+				v.Features = map[string]string{}
+			}
+			v.Features["observed"] = "after-every-op"
+		}
+	}
 	return o, s.tag(v)
 }
 
@@ -398,11 +420,15 @@ func (s *sys) do(op string) (string, *eng.Violation) {
 	s.lastFeat = s.cfgFeat()
 	s.mvSrc = ""
 	switch f[0] {
-	case "Mkdir", "MkdirP", "MkdirF", "MkdirPN":
+	case "Mkdir", "MkdirP", "MkdirF", "MkdirPN", "MkdirM", "MkdirPM":
 		// Mkdir: plain; MkdirP: parents + flush (what `ipfs files mkdir -p` does);
 		// MkdirF: plain + flush; MkdirPN: parents, no flush
 		p := f[1]
-		parents := f[0] == "MkdirP" || f[0] == "MkdirPN"
+		// MkdirM / MkdirPM: plain / parents, with WithMode+WithModTime: the options
+		// describe "the created directory" (option.go), i.e. the one named by the
+		// path; directories created implicitly by Mkparents carry no metadata
+		parents := f[0] == "MkdirP" || f[0] == "MkdirPN" || f[0] == "MkdirPM"
+		meta := f[0] == "MkdirM" || f[0] == "MkdirPM"
 		c := comps(p)
 		wantOK := true
 		cur := s.model
@@ -426,15 +452,23 @@ func (s *sys) do(op string) (string, *eng.Violation) {
 			}
 		}
 		s.lastFeat = append(s.lastFeat, "parents", fmt.Sprint(parents), "target", kindOf(s.model.get(p)))
-		err := mfs.Mkdir(s.rt, p, mfs.MkdirOpts{Mkparents: parents, Flush: f[0] == "MkdirF" || f[0] == "MkdirP"})
+		var dopts []mfs.Option
+		if meta {
+			dopts = []mfs.Option{mfs.WithMode(osMode(modeB)), mfs.WithModTime(mtimes[2])}
+		}
+		s.lastFeat = append(s.lastFeat, "meta_options", fmt.Sprint(meta))
+		err := mfs.Mkdir(s.rt, p, mfs.MkdirOpts{Mkparents: parents, Flush: f[0] == "MkdirF" || f[0] == "MkdirP"}, dopts...)
 		if v := expectClass(op, wantOK, err, s.lastFeat); v != nil {
 			return cls(err), v
 		}
 		if err == nil {
 			cur := s.model
-			for _, name := range c {
+			for i, name := range c {
 				if cur.kids[name] == nil {
 					cur.kids[name] = newDir()
+					if meta && i == len(c)-1 {
+						cur.kids[name].mode, cur.kids[name].mtime = modeB, 2
+					}
 				}
 				cur = cur.kids[name]
 			}
@@ -468,7 +502,7 @@ func (s *sys) do(op string) (string, *eng.Violation) {
 		}
 		return cls(err), nil
 
-	case "Write", "WriteNS", "Trunc", "Append":
+	case "Write", "WriteNS", "Trunc", "Append", "Fd":
 		p := f[1]
 		m := s.model.get(p)
 		s.lastFeat = append(s.lastFeat, "target", kindOf(m))
@@ -502,26 +536,60 @@ func (s *sys) do(op string) (string, *eng.Violation) {
 		if err != nil {
 			return "err", expectClass("Open "+p, true, err, s.lastFeat)
 		}
-		var werr error
-		switch f[0] {
-		case "Write", "WriteNS":
-			_, werr = fd.Write([]byte("xy"))
-			if len(m.data) > 2 {
-				m.data = "xy" + m.data[2:]
-			} else {
-				m.data = "xy"
-			}
-		case "Append":
-			if _, werr = fd.Seek(0, io.SeekEnd); werr == nil {
-				_, werr = fd.Write([]byte("z"))
-			}
-			m.data += "z"
-		case "Trunc":
-			werr = fd.Truncate(1)
-			m.data = (m.data + "\x00")[:1]
+		// every variant is a script of calls on ONE descriptor: w = Write("xy")
+		// at the current offset, a = seek to the end + Write("z"), t =
+		// Truncate(1), f = Flush; Close at the end.  Fd scripts never write
+		// after a truncate that follows a write, so every offset is unambiguous.
+		script := map[string]string{"Write": "w", "WriteNS": "w", "Append": "a", "Trunc": "t"}[f[0]]
+		if f[0] == "Fd" {
+			script = f[2]
+			s.lastFeat = append(s.lastFeat, "script", script)
+			theRun.Add("fd_script_"+script, 1)
 		}
-		s.lastFeat = append(s.lastFeat, "file_shape", shape, "extends", fmt.Sprint(len(m.data) > oldLen))
-		theRun.Add("write_"+shape+"_extends_"+fmt.Sprint(len(m.data) > oldLen), 1)
+		// model first (so that the features are known if the code under test panics)
+		extends := false // some step made the file longer than it was just before that step
+		off := 0
+		for _, c := range script {
+			before := len(m.data)
+			switch c {
+			case 'w':
+				d := m.data
+				for len(d) < off+2 {
+					d += "\x00"
+				}
+				m.data = d[:off] + "xy" + d[off+2:]
+				off += 2
+			case 'a':
+				m.data += "z"
+				off = len(m.data)
+			case 't':
+				m.data = (m.data + "\x00")[:1]
+			}
+			if len(m.data) > before {
+				extends = true
+			}
+		}
+		_ = oldLen
+		s.lastFeat = append(s.lastFeat, "file_shape", shape, "extends", fmt.Sprint(extends))
+		theRun.Add("write_"+shape+"_extends_"+fmt.Sprint(extends), 1)
+		var werr error
+		for _, c := range script {
+			if werr != nil {
+				break
+			}
+			switch c {
+			case 'w':
+				_, werr = fd.Write([]byte("xy"))
+			case 'a':
+				if _, werr = fd.Seek(0, io.SeekEnd); werr == nil {
+					_, werr = fd.Write([]byte("z"))
+				}
+			case 't':
+				werr = fd.Truncate(1)
+			case 'f':
+				werr = fd.Flush()
+			}
+		}
 		if m.mtime != 0 {
 			m.mtime = -1 // MFS stamps the current time on modification of a file that stores an mtime
 		}
@@ -916,9 +984,18 @@ func (s *sys) diffViolation(phase, kind, path, detail string) *eng.Violation {
 func (s *sys) Check() *eng.Violation { return s.tag(s.check()) }
 
 func (s *sys) check() *eng.Violation {
+	if v := s.liveCheck(); v != nil {
+		return v
+	}
 	want := map[string]*mnode{}
 	s.model.flatten("", want)
-	// (1) what MFS shows
+	return s.persistCheck(want)
+}
+
+// liveCheck: what MFS shows (pure observers only)
+func (s *sys) liveCheck() *eng.Violation {
+	want := map[string]*mnode{}
+	s.model.flatten("", want)
 	live := map[string]obs{}
 	if v := s.liveWalk("", live); v != nil {
 		v.Features = map[string]string{}
@@ -939,7 +1016,11 @@ func (s *sys) check() *eng.Violation {
 			}
 		}
 	}
-	// (2) what MFS persists: flush the root, read the root DAG with the UnixFS readers
+	return nil
+}
+
+// persistCheck: what MFS persists: flush the root, read the root DAG with the UnixFS readers
+func (s *sys) persistCheck(want map[string]*mnode) *eng.Violation {
 	if err := s.rt.GetDirectory().Flush(); err != nil {
 		return eng.V("flush-error", "Flush", fmt.Sprintf("after %q: root Flush: %v", s.last, err), s.cfgFeat()...)
 	}
@@ -957,6 +1038,9 @@ func (s *sys) check() *eng.Violation {
 	return nil
 }
 
+// in this configuration the live-view observers run after every operation
+const obsCfg = "pub=1,hamt=0,obs=each"
+
 var baseCfgs = []string{"pub=1,hamt=0", "pub=1,hamt=1", "pub=0,hamt=0", "pub=0,hamt=1"}
 
 // two searches: from the empty root, and (shallower) from a populated tree
@@ -969,13 +1053,13 @@ func specs(r *eng.Run) []eng.SeqSpec {
 	}
 	if !thorough {
 		return []eng.SeqSpec{
-			{Configs: baseCfgs, New: newSys, Depth: 3},
-			{Configs: []string{pop[1], pop[2]}, New: newSys, Depth: 2},
+			{Configs: append(append([]string{}, baseCfgs...), obsCfg), New: newSys, Depth: 3},
+			{Configs: []string{pop[1], pop[2], obsCfg + ",init=pop"}, New: newSys, Depth: 2},
 		}
 	}
 	return []eng.SeqSpec{
-		{Configs: baseCfgs, New: newSys, Depth: 4},
-		{Configs: []string{pop[0], pop[2], pop[3]}, New: newSys, Depth: 2},
+		{Configs: append(append([]string{}, baseCfgs...), obsCfg), New: newSys, Depth: 4},
+		{Configs: []string{pop[0], pop[2], pop[3], obsCfg + ",init=pop"}, New: newSys, Depth: 2},
 		{Configs: []string{pop[1]}, New: newSys, Depth: 3},
 	}
 }
